@@ -72,9 +72,14 @@ def was(name):
 
 
 def val():
-    v = CUR[0][1]
+    return dec(CUR[0][1])
+
+
+def dec(v):
     if 400000 <= v < 500000:
         return float(v - 400000)        # script values are codes: FloatBase + n is the float n.0
+    if 300000 < v < 400000:
+        return 300000 - v               # NegBase + n is the integer -n
     return v
 
 
@@ -124,7 +129,7 @@ class _Iter:
             POS[0] += 1
             LAST[0] = "iter"
             LOG.append(("env", "iter", op[1]))
-            return op[1]
+            return dec(op[1])
         if op[0] == "stop":
             POS[0] += 1
             LAST[0] = "stop"
@@ -168,6 +173,8 @@ def enc(v):
         return OTHER_CODE
     if isinstance(v, int) and 0 <= v < 100000:
         return v
+    if isinstance(v, int) and -100000 < v < 0:
+        return 300000 - v              # NegBase of PteraAbs.tla
     if isinstance(v, float) and v == int(v) and 0 <= v < 100000:
         return 400000 + int(v)         # FloatBase of PteraAbs.tla
     if isinstance(v, ScriptBase):
